@@ -33,6 +33,7 @@ var (
 	StringType = reflect.TypeOf("")
 
 	// Structs
+	AssignStmtType   = reflect.TypeOf(ast.AssignStmt{})
 	BlockStmtType    = reflect.TypeOf(ast.BlockStmt{})
 	CaseClauseType   = reflect.TypeOf(ast.CaseClause{})
 	CommClauseType   = reflect.TypeOf(ast.CommClause{})
@@ -52,6 +53,7 @@ var (
 	StarExprType     = reflect.TypeOf(ast.StarExpr{})
 
 	// Struct Pointers
+	AssignStmtPtrType   = reflect.PtrTo(AssignStmtType)
 	CommentGroupPtrType = reflect.PtrTo(CommentGroupType)
 	FieldListPtrType    = reflect.PtrTo(FieldListType)
 	FieldPtrType        = reflect.PtrTo(FieldType)
